@@ -444,7 +444,7 @@ _note("C06", " ep-ideal, a fifth of the sessions: the client proper starts 2.5..
 _note("C07", " limits, a quarter of the sessions: the server's refusals travel 2.1..9 s longer than everything else, so that a refused client's SYN resend may have been accepted before the refusal of its first SYN arrives; `handshake-error-on-established-client`: a client object that reported Connect never reports a handshake error afterwards (every epsim family). `server-nonces-predictable` (every epsim family): the distinct server nonces of a session against the guesses of an observer of two earlier handshakes.", ["refusals_delayed_past_the_next_syn_resend", "c07_connected_client_objects_watched_for_handshake_errors", "c07_server_nonces_tested_for_predictability"])
 _note("C09", " disconnect family: receive allocations of 21, 30 and 69 whole fragments (exact multiples of 1448, small enough for the queued data to fill them) next to 100 kB and 1 MB.", [])
 _note("C10", " 8 % of the timers scenarios are successor connections: 1..3 earlier connections from the same address (established, used, closed by the server or by the client, forgotten or still remembered), with or without an unrelated bystander client, then the connection proper: a short exchange and 40..120 s idle on a loss-free network with keepalive on both sides; both ends judged by the active-timeout model on the observed read times.", ["c10_successor_connections_checked"])
-_note("C11", " blackout family, a fifth of the scenarios: the other side has a backlog of full-size frames of its own at a ceiling of 1472..3000 B/s that lasts 1..5 min beyond the fault, so that what it owes the blocked sender has to get out although its credit is spent nearly all the time.", [])
+_note("C11", " blackout family, a fifth of the scenarios: the other side, stepped every 3..5 ms, has a backlog of full-size frames of its own at a ceiling of 1472 B/s that lasts 1..5 min beyond the fault, so that what it owes the blocked sender has to get out although its credit is spent nearly all the time.", [])
 _note("C15", " A third of the ack-twin scenarios include floods: 30..45 ack frames of 150 groups each (more groups than a frame window holds, unknown ids or wrong parity) handed over in one step ahead of the genuine acknowledgements.", ["inj_ack_group_floods"])
 _note("C17", " One server in eight is stepped a little less often than its own active timeout (1..3 s), so that at the start of each step every established connection's deadline has passed and is pushed forward by the frames that step reads; a quarter of the sessions have delayed refusals (see C07).", ["c17_servers_stepped_less_often_than_their_active_timeout"])
 _note("C18", " Slow drip (long runs and 12 % of the others, watched for 10 min): a valid SYN, then one small frame (Disconnect, wrong-nonce ACK, data, sync, DisconnectAck) every 5..20 s for minutes.", ["amp_slow_drip_addresses"])
